@@ -195,3 +195,26 @@ fn k_hist_cut_is_prefix() {
         i += 4;
     }
 }
+
+/// C05 (bounded): the header ranges of a one-record PointZ file are exactly the record's values, also when a value
+/// is infinite (the running box starts from infinities, which must not be mistaken for "untouched" once data arrived)
+#[kani::proof]
+#[kani::unwind(24)]
+fn k_hist_header_box_single_pointz() {
+    let mut shp_buf = [0u8; 160];
+    let z: f64 = if kani::any() { f64::INFINITY } else { f64::from_bits(0x4014_0000_0000_0000) }; // +inf or 5.0
+    let x: u64 = kani::any();
+    kani::assume(!f64::from_bits(x).is_nan());
+    {
+        let mut w = ShapeWriter::new(Mem { buf: &mut shp_buf[..], pos: 0, len: 0 });
+        let r = w.write_shape(&PointZ::new(f64::from_bits(x), 2.0, z, 3.0));
+        assert!(r.is_ok());
+        std::mem::forget(r);
+    }
+    // header: Xmin 36, Ymin 44, Xmax 52, Ymax 60, Zmin 68, Zmax 76, Mmin 84, Mmax 92
+    assert!(le32(&shp_buf, 32) == 11);
+    assert!(le64(&shp_buf, 36) == x && le64(&shp_buf, 52) == x);
+    assert!(le64(&shp_buf, 44) == 2.0f64.to_bits() && le64(&shp_buf, 60) == 2.0f64.to_bits());
+    assert!(le64(&shp_buf, 68) == z.to_bits() && le64(&shp_buf, 76) == z.to_bits());
+    assert!(le64(&shp_buf, 84) == 3.0f64.to_bits() && le64(&shp_buf, 92) == 3.0f64.to_bits());
+}
